@@ -1486,3 +1486,54 @@ func specBalanced(n ast.Node) bool {
 //@   props X00 C04
 //@   panics allowed
 //@   claim[C04] index[assignment.Rhs[0]]
+
+// ---------------------------------------------------------------------------
+// C17, one variable per declared global: the emitter keeps one entry in the
+// list of globals for a predefined variable, whatever the number of functions
+// (one per template file, plus macros) that refer to it - Run binds each entry
+// separately, so a second entry would be a second variable for the same name:
+// an assignment in one file would not be seen in another, and a non-pointer
+// value passed to Run would be copied once per file.
+// ---------------------------------------------------------------------------
+
+func specHasPredef(m map[*reflect.Value]int16, v *reflect.Value) bool { _, ok := m[v]; return ok }
+
+func specHasPredefRef(m map[*runtime.Function]map[*reflect.Value]int16, fn *runtime.Function, v *reflect.Value) bool {
+	_, ok := m[fn][v]
+	return ok
+}
+
+//@ func (*varStore).predefVarIndex
+//@   props X00 C17
+//@   opt puremethods IsValid GoType
+//@   panics allowed
+//@   requires vs != nil && vs.emitter != nil && vs.emitter.fb != nil && v != nil && vs.predefGlobal != nil && vs.predefVarRef != nil
+//@   requires len(vs.globals) < 32000
+//@   ensures[C17] old(specHasPredef(vs.predefGlobal, v)) ==> len(vs.globals) == old(len(vs.globals))
+//@   ensures[C17] old(specHasPredef(vs.predefGlobal, v)) && !old(specHasPredefRef(vs.predefVarRef, vs.emitter.fb.fn, v)) ==> result == old(vs.predefGlobal[v])
+//@   ensures[C17] !old(specHasPredef(vs.predefGlobal, v)) && !old(specHasPredefRef(vs.predefVarRef, vs.emitter.fb.fn, v)) ==> len(vs.globals) == old(len(vs.globals))+1
+//@   ensures[C17] !old(specHasPredef(vs.predefGlobal, v)) && !old(specHasPredefRef(vs.predefVarRef, vs.emitter.fb.fn, v)) ==> int(result) == old(len(vs.globals))
+//@   ensures[C17] !old(specHasPredef(vs.predefGlobal, v)) && !old(specHasPredefRef(vs.predefVarRef, vs.emitter.fb.fn, v)) ==> specHasPredef(vs.predefGlobal, v) && vs.predefGlobal[v] == result
+
+// ---------------------------------------------------------------------------
+// C16, `import "file" for A, B`: only the listed names of the imported file
+// become available in the importing file (the others stay what they were, e.g.
+// the same name imported from another file).
+// ---------------------------------------------------------------------------
+
+func specListed(ids []*ast.Identifier, name string) bool {
+	return exists(0, len(ids), func(k int) bool { return ids[k].Name == name })
+}
+
+//@ func importedFor
+//@   props X00 C16
+//@   ensures[C16] result == (list == nil || exists(0, len(list), func(k int) bool { return list[k].Name == name }))
+//@   loop 0
+//@     invariant[C16] forall(0, rangeIndex(0), func(k int) bool { return list[k].Name != name })
+
+//@ func (*emitter).emitImport
+//@   props X00 C16
+//@   panics allowed
+//@   opt stable github.com/open2b/scriggo/ast.Import
+//@   callassert[C16] em.fnStore.makeAvailableScriggoFn 0 node.For == nil || importName != "" || exists(0, len(node.For), func(k int) bool { return node.For[k].Name == name })
+//@   callassert[C16] em.varStore.bindScriggoPackageVar 0 node.For == nil || importName != "" || exists(0, len(node.For), func(k int) bool { return node.For[k].Name == name })
